@@ -43,21 +43,24 @@ def off_class(d0):
     return b - 5, d0 - (1 << b), b
 
 
-def expand_pm(cmds):
-    """('B', value) | ('C', distance, length); copies only from produced data."""
+def expand_pm(cmds, fill=0x20):
+    """('B', value) | ('C', distance, length).  A -pm2- copy may reach back before the first output byte: like the rest of
+    the LHA family its window starts filled with spaces (the -pm1- generator never produces such copies)."""
     out = bytearray()
     for c in cmds:
         if c[0] == 'B':
             out.append(c[1])
         else:
             for _ in range(c[2]):
-                out.append(out[len(out) - c[1]])
+                p = len(out) - c[1]
+                out.append(out[p] if p >= 0 else fill)
     return bytes(out)
 
 
 # ------------------------------------------------------------------ pm2
 
-def pm2_gen(rnd, target, mtf_directed=False):
+def pm2_gen(rnd, target, mtf_directed=False, prefill=False):
+    """prefill=True also issues copies that reach back before the start of the output (into the space-filled window)."""
     cmds, out = [], bytearray()
     if mtf_directed:
         # touch every MTF position 255..0 once (values chosen by position in the evolving list)
@@ -69,9 +72,11 @@ def pm2_gen(rnd, target, mtf_directed=False):
             mtf.pop(p)
             mtf.insert(0, v)
     while len(out) < target:
-        if out and rnd.random() < 0.4:
+        if (out or prefill) and rnd.random() < 0.4:
             n = rnd.choice([2, 3, 16, 17, 24, 25, 32, 33, 64, 65, 128, 129, 255, 256, rnd.randrange(2, 257)])
-            maxd = min(len(out), 8192)
+            # the offset tree has 5/6/7/8 entries in the successive stages, so the encodable distance grows with the output position
+            stage_lim = 1024 if len(out) < 1024 else 2048 if len(out) < 2048 else 4096 if len(out) < 4096 else 8192
+            maxd = stage_lim if (prefill and rnd.random() < 0.5) else max(1, min(len(out), stage_lim))
             if n == 2:
                 maxd = min(maxd, 64)
             if n == 256:
@@ -79,9 +84,11 @@ def pm2_gen(rnd, target, mtf_directed=False):
             else:
                 d = rnd.choice([1, maxd, rnd.randrange(1, maxd + 1),
                                 min(maxd, rnd.choice([64, 65, 128, 1024, 2048, 4096, 8191, 8192]))])
+            d = min(d, maxd)
             cmds.append(('C', d, n))
             for _ in range(n):
-                out.append(out[len(out) - d])
+                q = len(out) - d
+                out.append(out[q] if q >= 0 else 0x20)
         else:
             v = rnd.randrange(256) if rnd.random() < 0.5 else rnd.choice(b' etaoin\n')
             cmds.append(('B', v))
@@ -180,7 +187,8 @@ def pm2_serialise(cmds, rnd, feat=None):
             info.append((st, 8 + cc, osym, extra))
             pos += n
             for _ in range(n):
-                v = outb[len(outb) - d]
+                q = len(outb) - d
+                v = outb[q] if q >= 0 else 0x20
                 outb.append(v)
                 mtf.remove(v)
                 mtf.insert(0, v)
